@@ -127,7 +127,9 @@ def gen_cases(ctx, n):
 
 
 def run(ctx):
-    n = ctx.budget(400, 4000)
+    import time
+    t0 = time.time()
+    n = ctx.budget(300, 4000)
     cases = gen_cases(ctx, n)
     terms, metas = [], []
     dist = {"form_class": 0, "define_rejected": 0, "errors": 0, "fields_total": 0, "with_negative_pos": 0,
@@ -151,10 +153,12 @@ def run(ctx):
         if key not in seen:
             seen.add(key)
             nontrivial += contributes(c) >= 2
+    t1 = time.time()
     codes = coqio.run_case_codes(ctx.scratch, "c22", sg.IMPORTS, "case_t", terms, "code", extra=DEFS, shard=120)
     res = {"tie_all": [i for i, k in enumerate(codes) if k & 1], "spec": [i for i, k in enumerate(codes) if k & 2],
            "dom": [i for i, k in enumerate(codes) if k & 4]}
     res["tie"] = [i for i in res["tie_all"] if not codes[i] & 4]
+    t2 = time.time()
     in_domain = len(cases) - len(res["dom"])          # "dom" lists the indices *outside* the domain
     dist["in_partial_theorem_domain"] = in_domain
     dist["spec_disagreements"] = len(res["spec"])
@@ -166,23 +170,34 @@ def run(ctx):
                   extra={"model_disagreements_outside_domain": len(set(res["tie_all"]) - set(res["tie"])),
                          "model_agreements": len(cases) - len(res["tie_all"])})
     outside = set(res["dom"])
-    by_class = {}
+    by_class, pending = {}, []
     for i in res["spec"]:
         c, obs = cases[i], metas[i]
         fid = classify(c, obs) if i in outside else None
         by_class[fid] = by_class.get(fid, 0) + 1
-        if sum(1 for f in out.failures if f.finding == fid and f.kind == "spec") >= 5:
+        if sum(1 for f, _ in pending if f.finding == fid and f.kind == "spec") >= 3:
             continue
-        out.failures.append(Failure(case=_strip(c), observed={k: obs[k] for k in ("positions", "argv", "error", "stage")},
-                                    expected=_spec_value(ctx, c, i), kind="spec", finding=fid,
-                                    note=WHAT.get(fid, "argv differs from the reference vector"
-                                                  + ("" if i in outside else " inside the domain of C22_partial"))))
+        pending.append((Failure(case=_strip(c), observed={k: obs[k] for k in ("positions", "argv", "error", "stage")},
+                                kind="spec", finding=fid,
+                                note=WHAT.get(fid, "argv differs from the reference vector"
+                                              + ("" if i in outside else " inside the domain of C22_partial"))),
+                        _spec_term(c)))
     dist["spec_disagreements_by_class"] = {str(k): v for k, v in by_class.items()}
-    for i in res["tie"][:10]:
+    for i in res["tie"][:6]:
         c, obs = cases[i], metas[i]
-        out.failures.append(Failure(case=_strip(c), observed={k: obs[k] for k in ("positions", "argv", "error", "stage")},
-                                    expected=_model_value(ctx, c, i), kind="tie",
-                                    note="model != implementation inside the domain of C22_partial"))
+        pending.append((Failure(case=_strip(c), observed={k: obs[k] for k in ("positions", "argv", "error", "stage")},
+                                kind="tie", note="model != implementation inside the domain of C22_partial"),
+                        _model_term(c)))
+    if pending:
+        try:
+            vals = coqio.eval_terms(ctx.scratch, "expected", sg.IMPORTS, [t for _, t in pending], extra=sg.COMMON_DEFS + SHOW)
+        except Exception as e:  # noqa
+            vals = ["coq evaluation failed: %s" % e] * len(pending)
+        for (f, _), v in zip(pending, vals):
+            f.expected = v
+            out.failures.append(f)
+    out.extra["phase_wall_s"] = {"implementation": round(t1 - t0, 1), "coq_cases": round(t2 - t1, 1),
+                                 "replay_values": round(time.time() - t2, 1)}
     return out
 
 
@@ -190,27 +205,20 @@ def _strip(c):
     return {k: c[k] for k in ("form", "exe", "fields", "values", "append")}
 
 
-def _show(ctx, c, name, term):
-    try:
-        return coqio.eval_terms(ctx.scratch, name, sg.IMPORTS, [term], extra=sg.COMMON_DEFS + SHOW)[0]
-    except Exception as e:  # noqa
-        return "coq evaluation failed: %s" % e
-
-
 SHOW = """
 Definition show (r : result (list la)) := match r with Good l => inl (map str_of l) | Bad e => inr e end.
 """
 
 
-def _spec_value(ctx, c, i):
+def _spec_term(c):
     app = sg.enc_las(c["append"]) if isinstance(c["append"], list) else "(match append_args_conv %s with Good a => a | _ => [] end)" % sg.enc_app(c["append"])
-    return _show(ctx, c, "spec%d" % i, "map str_of (spec_argv %s %s %s %s)" % (
-        sg.enc_exe(c["exe"]), coqio.lst([sg.enc_sfield(f) for f in c["fields"]]), sg.enc_vals(c), app))
+    return "map str_of (spec_argv %s %s %s %s)" % (
+        sg.enc_exe(c["exe"]), coqio.lst([sg.enc_sfield(f) for f in c["fields"]]), sg.enc_vals(c), app)
 
 
-def _model_value(ctx, c, i):
-    return _show(ctx, c, "model%d" % i, "(match define %s (map to_field %s) with Good fs => inl (map f_pos fs) | Bad e => inr e end, show (in_argv %s))" % (
-        sg.enc_form(c), coqio.lst([sg.enc_sfield(f) for f in c["fields"]]), sg.enc_inputs(c)))
+def _model_term(c):
+    return "(match define %s (map to_field %s) with Good fs => inl (map f_pos fs) | Bad e => inr e end, show (in_argv %s))" % (
+        sg.enc_form(c), coqio.lst([sg.enc_sfield(f) for f in c["fields"]]), sg.enc_inputs(c))
 
 
 def replay(ctx, payload):
@@ -219,6 +227,7 @@ def replay(ctx, payload):
     print("definition:", json.dumps(c["fields"]))
     print("values    :", json.dumps(c["values"]), "append:", c["append"], "exe:", c["exe"], "form:", c["form"])
     print("implementation: positions=%s argv=%s error=%s" % (obs["positions"], obs["argv"], obs["error"]))
-    print("model         :", _model_value(ctx, c, 0))
-    print("spec          :", _spec_value(ctx, c, 0))
+    vals = coqio.eval_terms(ctx.scratch, "replay", sg.IMPORTS, [_model_term(c), _spec_term(c)], extra=sg.COMMON_DEFS + SHOW)
+    print("model         :", vals[0])
+    print("spec          :", vals[1])
     return 0
